@@ -24,6 +24,11 @@ func instantiated(list [][]ct.Comp, t []ct.Comp) bool {
 
 // arityScenario builds the per-tuple scenario of C14.
 func arityScenario(tuple []ct.Comp, depth int) *engine.Scenario {
+	return arityScenarioPath(tuple, depth, model.PathMapN)
+}
+
+// arityScenarioPath: path is PathMapN, or PathMap (the single-component Map[T]) for 1-tuples.
+func arityScenarioPath(tuple []ct.Comp, depth int, path model.Path) *engine.Scenario {
 	cs := ct.Of(tuple...)
 	n := len(tuple)
 	// X: a non-relation component outside the tuple (none for arity 12)
@@ -85,6 +90,18 @@ func arityScenario(tuple []ct.Comp, depth int) *engine.Scenario {
 		// the generic observer with For(...) must see exactly the events the ID-based API would emit, at every arity
 		obs = append(obs, model.ObsSpec{Event: ev, For: cs})
 	}
+	toggle := -1
+	if canObs {
+		// typed observers with every configuration method, and one that is unregistered / registered again
+		toggle = 0
+		obs = append(obs, model.ObsSpec{Event: model.EvSetComponents, Params: tuple, Exclusive: true})
+		if hasX {
+			obs = append(obs,
+				model.ObsSpec{Event: model.EvAddComponents, Params: tuple, With: ct.Of(x)},
+				model.ObsSpec{Event: model.EvRemoveComponents, Params: tuple, Without: ct.Of(x)},
+				model.ObsSpec{Event: model.EvRemoveEntity, Params: tuple, For: ct.Of(x)})
+		}
+	}
 	if len(relc) > 0 {
 		obs = append(obs, model.ObsSpec{Event: model.EvAddRelations}, model.ObsSpec{Event: model.EvRemoveRelations})
 		// filtered relation observers: the typed variants must pass the same old/new masks as the ID-based API
@@ -134,10 +151,10 @@ func arityScenario(tuple []ct.Comp, depth int) *engine.Scenario {
 		}
 		if len(al) < 4 {
 			for _, in := range []model.Init{model.InitValue, model.InitFn, model.InitNil} {
-				ops = append(ops, model.Op{K: model.OpNew, Path: model.PathMapN, Cs: cs, Ord: tuple, Init: in, T: relsTo(tgt)})
+				ops = append(ops, model.Op{K: model.OpNew, Path: path, Cs: cs, Ord: tuple, Init: in, T: relsTo(tgt)})
 			}
-			ops = append(ops, model.Op{K: model.OpNewBatch, Path: model.PathMapN, Cs: cs, Ord: tuple, N: 2, T: relsTo(tgt)})
-			ops = append(ops, model.Op{K: model.OpNewBatch, Path: model.PathMapN, Cs: cs, Ord: tuple, N: 2, Init: model.InitFn, Fn: true, T: relsTo(model.ZeroTarget)})
+			ops = append(ops, model.Op{K: model.OpNewBatch, Path: path, Cs: cs, Ord: tuple, N: 2, T: relsTo(tgt)})
+			ops = append(ops, model.Op{K: model.OpNewBatch, Path: path, Cs: cs, Ord: tuple, N: 2, Init: model.InitFn, Fn: true, T: relsTo(model.ZeroTarget)})
 			ops = append(ops, model.Op{K: model.OpNewPlain})
 			if hasX {
 				ops = append(ops, model.Op{K: model.OpNew, Path: model.PathUnsafe, Cs: ct.Of(x)})
@@ -151,19 +168,27 @@ func arityScenario(tuple []ct.Comp, depth int) *engine.Scenario {
 			if partial {
 				ops = append(ops, model.Op{K: model.OpNew, Path: model.PathUnsafe, Cs: ct.Of(last), T: relsOf(ct.Of(last), tgt)})
 			}
+			if len(relc) == 0 && canFilter && !cs.Has(ct.R1) {
+				// a matching archetype WITH relation tables (two targets) next to the plain one
+				ops = append(ops, model.Op{K: model.OpNew, Path: model.PathUnsafe, Cs: cs | ct.Of(ct.R1), T: rel(ct.R1, model.ZeroTarget)})
+				if tgt == 0 {
+					ops = append(ops, model.Op{K: model.OpNew, Path: model.PathUnsafe, Cs: cs | ct.Of(ct.R1), T: rel(ct.R1, 0)})
+				}
+			}
 		}
 		k := 0
 		for _, e := range pick2(al) {
 			c := m.Ents[e].Comps
 			k++
 			if c&cs == 0 {
-				in := []model.Init{model.InitValue, model.InitFn, model.InitNil}[k%3]
-				ops = append(ops, model.Op{K: model.OpAdd, Path: model.PathMapN, E: e, Cs: cs, Ord: tuple, Init: in, T: relsTo(tgt)})
+				for _, in := range []model.Init{model.InitValue, model.InitFn, model.InitNil} {
+					ops = append(ops, model.Op{K: model.OpAdd, Path: path, E: e, Cs: cs, Ord: tuple, Init: in, T: relsTo(tgt)})
+				}
 				if canEx {
-					ops = append(ops, model.Op{K: model.OpAdd, Path: model.PathExchange, E: e, Cs: cs, Ord: tuple, Init: model.InitFn, T: relsTo(model.ZeroTarget)})
+					ops = append(ops, model.Op{K: model.OpAdd, Path: model.PathExchange, E: e, Cs: cs, Ord: tuple, Init: []model.Init{model.InitValue, model.InitFn, model.InitNil}[k%3], T: relsTo(model.ZeroTarget)})
 					if len(relc) > 0 && tgt == 0 {
 						// the same (cached) ExchangeN instance is used with changing targets
-						ops = append(ops, model.Op{K: model.OpAdd, Path: model.PathExchange, E: e, Cs: cs, Ord: tuple, Init: model.InitFn, T: relsTo(tgt)})
+						ops = append(ops, model.Op{K: model.OpAdd, Path: model.PathExchange, E: e, Cs: cs, Ord: tuple, Init: model.InitValue, T: relsTo(tgt)})
 					}
 					if hasX && c.Has(x) {
 						if hasY && c.Has(y) {
@@ -175,14 +200,18 @@ func arityScenario(tuple []ct.Comp, depth int) *engine.Scenario {
 					}
 				}
 			}
+			if canEx && hasX && c.Has(x) {
+				// removal through the ExchangeN of this arity (its type parameters are not involved)
+				ops = append(ops, model.Op{K: model.OpRemove, Path: model.PathExchange, E: e, Rm: ct.Of(x), Ord: tuple})
+			}
 			if partial && c&cs == ct.Of(last) {
 				ops = append(ops, model.Op{K: model.OpAdd, Path: model.PathUnsafe, E: e, Cs: sub, T: relsOf(sub, tgt)})
 			}
 			if c&cs == cs {
 				ops = append(ops,
-					model.Op{K: model.OpSet, Path: model.PathMapN, E: e, Cs: cs, Ord: tuple},
-					model.Op{K: model.OpWrite, Path: model.PathMapN, E: e, Cs: cs, Ord: tuple},
-					model.Op{K: model.OpRemove, Path: model.PathMapN, E: e, Rm: cs, Ord: tuple},
+					model.Op{K: model.OpSet, Path: path, E: e, Cs: cs, Ord: tuple},
+					model.Op{K: model.OpWrite, Path: path, E: e, Cs: cs, Ord: tuple},
+					model.Op{K: model.OpRemove, Path: path, E: e, Rm: cs, Ord: tuple},
 				)
 				if partial {
 					ops = append(ops, model.Op{K: model.OpRemove, Path: model.PathUnsafe, E: e, Rm: sub})
@@ -192,17 +221,17 @@ func arityScenario(tuple []ct.Comp, depth int) *engine.Scenario {
 					if m.Ents[e].Tgt[relc[0]] == model.ZeroTarget && tgt == 0 {
 						nt = 0
 					}
-					ops = append(ops, model.Op{K: model.OpSetRel, Path: model.PathMapN, E: e, Ord: tuple, T: rel(relc[len(relc)-1], nt)})
-					ops = append(ops, model.Op{K: model.OpSetRel, Path: model.PathMapN, E: e, Ord: tuple, T: relsTo(nt)})
+					ops = append(ops, model.Op{K: model.OpSetRel, Path: path, E: e, Ord: tuple, T: rel(relc[len(relc)-1], nt)})
+					ops = append(ops, model.Op{K: model.OpSetRel, Path: path, E: e, Ord: tuple, T: relsTo(nt)})
 				}
 			}
 			ops = append(ops, model.Op{K: model.OpRemoveEntity, E: e})
 		}
 		// batch forms
 		ops = append(ops,
-			model.Op{K: model.OpAddBatch, Path: model.PathMapN, F: 0, Cs: cs, Ord: tuple, Init: model.InitFn, Fn: true, T: relsTo(tgt)},
-			model.Op{K: model.OpAddBatch, Path: model.PathMapN, F: 0, Cs: cs, Ord: tuple, T: relsTo(model.ZeroTarget)},
-			model.Op{K: model.OpRemoveBatch, Path: model.PathMapN, F: 1, Rm: cs, Ord: tuple, Fn: true},
+			model.Op{K: model.OpAddBatch, Path: path, F: 0, Cs: cs, Ord: tuple, Init: model.InitFn, Fn: true, T: relsTo(tgt)},
+			model.Op{K: model.OpAddBatch, Path: path, F: 0, Cs: cs, Ord: tuple, T: relsTo(model.ZeroTarget)},
+			model.Op{K: model.OpRemoveBatch, Path: path, F: 1, Rm: cs, Ord: tuple, Fn: true},
 			model.Op{K: model.OpRemoveEntities, F: 1, Fn: true},
 		)
 		if canEx && hasX {
@@ -210,13 +239,19 @@ func arityScenario(tuple []ct.Comp, depth int) *engine.Scenario {
 				model.Op{K: model.OpExchangeBatch, F: 2, Cs: cs, Ord: tuple, Rm: ct.Of(x), Init: model.InitFn, Fn: true, T: relsTo(tgt)},
 				model.Op{K: model.OpAddBatch, Path: model.PathExchange, F: 0, Cs: cs, Ord: tuple, Init: model.InitNil, T: relsTo(tgt)},
 				model.Op{K: model.OpRemoveBatch, Path: model.PathExchange, F: 1, Rm: cs},
+				model.Op{K: model.OpAddBatch, Path: model.PathExchange, F: 0, Cs: cs, Ord: tuple, Init: model.InitValue, T: relsTo(model.ZeroTarget)},
+				model.Op{K: model.OpExchangeBatch, F: 2, Cs: cs, Ord: tuple, Rm: ct.Of(x), Init: model.InitValue, T: relsTo(tgt)},
+				model.Op{K: model.OpRemoveBatch, Path: model.PathExchange, F: 2, Rm: ct.Of(x), Ord: tuple, Fn: true},
 			)
 		}
 		if len(relc) > 0 {
-			ops = append(ops, model.Op{K: model.OpSetRelBatch, Path: model.PathMapN, F: 1, Ord: tuple, T: relsTo(model.ZeroTarget), Fn: true})
+			ops = append(ops, model.Op{K: model.OpSetRelBatch, Path: path, F: 1, Ord: tuple, T: relsTo(model.ZeroTarget), Fn: true})
 			if tgt == 0 {
-				ops = append(ops, model.Op{K: model.OpSetRelBatch, Path: model.PathMapN, F: 1, Ord: tuple, T: rel(relc[0], 0)})
+				ops = append(ops, model.Op{K: model.OpSetRelBatch, Path: path, F: 1, Ord: tuple, T: rel(relc[0], 0)})
 			}
+		}
+		if toggle >= 0 {
+			ops = append(ops, model.Op{K: model.OpUnobserve, O: toggle}, model.Op{K: model.OpObserve, O: toggle})
 		}
 		if canFilter {
 			ops = append(ops, regOps(m, []int{1})...)
@@ -242,22 +277,135 @@ func arityScenario(tuple []ct.Comp, depth int) *engine.Scenario {
 			p2 = append(p2, model.Op{K: model.OpNewPlain},
 				model.Op{K: model.OpAdd, Path: model.PathExchange, E: 1, Cs: cs, Ord: tuple, Init: model.InitFn, T: relsTo(0)})
 		} else {
-			p2 = append(p2, model.Op{K: model.OpNew, Path: model.PathMapN, Cs: cs, Ord: tuple, T: relsTo(0)})
+			p2 = append(p2, model.Op{K: model.OpNew, Path: path, Cs: cs, Ord: tuple, T: relsTo(0)})
 		}
-		p2 = append(p2, model.Op{K: model.OpNew, Path: model.PathMapN, Cs: cs, Ord: tuple, T: relsTo(model.ZeroTarget)})
+		p2 = append(p2, model.Op{K: model.OpNew, Path: path, Cs: cs, Ord: tuple, T: relsTo(model.ZeroTarget)})
 		if canFilter {
-			p2 = append(p2, model.Op{K: model.OpSetRelBatch, Path: model.PathMapN, F: 1, Ord: tuple, QT: rel(relc[0], 0), T: rel(relc[0], 0)})
+			p2 = append(p2, model.Op{K: model.OpSetRelBatch, Path: path, F: 1, Ord: tuple, QT: rel(relc[0], 0), T: rel(relc[0], 0)})
 		}
 		preludes = append(preludes, p2)
 	}
 	return &engine.Scenario{
-		Name:     fmt.Sprintf("C14-arity%d%v", n, tuple),
+		Name:     fmt.Sprintf("C14-arity%d%v%s", n, tuple, map[bool]string{true: "/Map", false: ""}[path == model.PathMap]),
 		Cfgs:     []drv.Config{{Cap: 1, Universe: allComps}},
 		Filters:  filters,
 		Obs:      obs,
 		Slots:    2,
 		Oracle:   drv.Oracle{World: true, Typed: true, Family: family, Filters: true, Lock: true, Events: true, InCb: canObs, InCbPtr: true, Tuple: tuple},
 		Preludes: preludes,
+		Alphabet: alpha,
+		Depth:    depth,
+	}
+}
+
+// missingScenario: for every position j of the tuple an entity that has all tuple components except the
+// j-th (then completed by adding it): MapN.HasAll must be false, MapN.Get must return nil exactly at j, the
+// typed filter must not match; afterwards everything must agree with the complete entity.
+func missingScenario(tuple []ct.Comp) *engine.Scenario {
+	cs := ct.Of(tuple...)
+	n := len(tuple)
+	relc := cs.Rels().List()
+	relsOf := func(set ct.Set, t int) []model.RelT {
+		var out []model.RelT
+		for _, c := range relc {
+			if set.Has(c) {
+				out = append(out, model.RelT{C: c, T: t})
+			}
+		}
+		return out
+	}
+	var family []model.FilterSpec
+	if n <= 8 && instantiated(api.FilterTuples, tuple) {
+		family = append(family, model.FilterSpec{Params: tuple}, model.FilterSpec{Params: tuple, Exclusive: true})
+	}
+	family = append(family, model.FilterSpec{Params: tuple, Unsafe: true})
+	alpha := func(m *model.Model) []model.Op {
+		var ops []model.Op
+		al := m.Alive()
+		if len(al) == 1 {
+			for j := range tuple {
+				sub := cs &^ ct.Of(tuple[j])
+				ops = append(ops, model.Op{K: model.OpNew, Path: model.PathUnsafe, Cs: sub, T: relsOf(sub, j%2-1)})
+			}
+		} else if len(al) == 2 {
+			e := al[1]
+			miss := cs &^ m.Ents[e].Comps
+			if miss != 0 {
+				ops = append(ops, model.Op{K: model.OpAdd, Path: model.PathUnsafe, E: e, Cs: miss, T: relsOf(miss, 0)})
+			}
+			ops = append(ops, model.Op{K: model.OpNew, Path: model.PathMapN, Cs: cs, Ord: tuple, T: relsOf(cs, 0)})
+		}
+		return validOnly(m, ops)
+	}
+	return &engine.Scenario{
+		Name:     fmt.Sprintf("C14-missing%d%v", n, tuple),
+		Cfgs:     []drv.Config{{Cap: 1, Universe: allComps}},
+		Slots:    1,
+		Oracle:   drv.Oracle{World: true, Typed: true, Family: family, Lock: true, Tuple: tuple},
+		Preludes: [][]model.Op{{{K: model.OpNewPlain}}},
+		Alphabet: alpha,
+		Depth:    2,
+	}
+}
+
+// arity0Scenario: Filter0 / Query0 (no type parameters) with every configuration method, registered and not.
+func arity0Scenario(depth int) *engine.Scenario {
+	filters := []model.FilterSpec{
+		{},                     // f0 Filter0
+		{Exclusive: true},      // f1 Filter0.Exclusive: entities without components
+		{With: ct.Of(ct.P)},    // f2 Filter0.With
+		{Without: ct.Of(ct.P)}, // f3 Filter0.Without
+		{With: ct.Of(ct.R1), Rels: rel(ct.R1, 0)}, // f4 Filter0.With(rel).Relations(...)
+		{With: ct.Of(ct.P), Without: ct.Of(ct.Q)}, // f5
+	}
+	family := []model.FilterSpec{{}, {Exclusive: true}, {With: ct.Of(ct.P)}, {Without: ct.Of(ct.P)}, {With: ct.Of(ct.P), Exclusive: true},
+		{With: ct.Of(ct.R1)}, {With: ct.Of(ct.R1), Rels: rel(ct.R1, model.ZeroTarget)}, {With: ct.Of(ct.P, ct.Q)}, {Without: ct.Of(ct.P, ct.Q)}}
+	alpha := func(m *model.Model) []model.Op {
+		var ops []model.Op
+		al := m.Alive()
+		tgt := model.ZeroTarget
+		if m.IsAlive(0) {
+			tgt = 0
+		}
+		if len(al) < 4 {
+			ops = append(ops,
+				model.Op{K: model.OpNewPlain},
+				model.Op{K: model.OpNew, Path: model.PathMapN, Cs: ct.Of(ct.P)},
+				model.Op{K: model.OpNew, Path: model.PathMapN, Cs: ct.Of(ct.P, ct.Q)},
+				model.Op{K: model.OpNew, Path: model.PathMapN, Cs: ct.Of(ct.R1), T: rel(ct.R1, tgt)},
+				model.Op{K: model.OpNewEntities, N: 2},
+			)
+		}
+		for _, e := range pick2(al) {
+			c := m.Ents[e].Comps
+			if !c.Has(ct.P) {
+				ops = append(ops, model.Op{K: model.OpAdd, Path: model.PathUnsafe, E: e, Cs: ct.Of(ct.P)})
+			} else {
+				ops = append(ops, model.Op{K: model.OpRemove, Path: model.PathUnsafe, E: e, Rm: ct.Of(ct.P)})
+			}
+			ops = append(ops, model.Op{K: model.OpRemoveEntity, E: e})
+		}
+		ops = append(ops,
+			model.Op{K: model.OpRemoveEntities, F: 1, Fn: true},
+			model.Op{K: model.OpRemoveEntities, F: 3},
+			model.Op{K: model.OpAddBatch, Path: model.PathMapN, F: 3, Cs: ct.Of(ct.P), Init: model.InitFn, Fn: true},
+			model.Op{K: model.OpRemoveBatch, Path: model.PathMapN, F: 5, Rm: ct.Of(ct.P)},
+		)
+		ops = append(ops, regOps(m, []int{0, 1, 2, 3, 4})...)
+		ops = append(ops, queryOps(m, []int{0, 1, 3}, nil)...)
+		return validOnly(m, ops)
+	}
+	return &engine.Scenario{
+		Name:    "C14-arity0",
+		Cfgs:    []drv.Config{{Cap: 1, Universe: []ct.Comp{ct.P, ct.Q, ct.R1}}},
+		Filters: filters,
+		Slots:   2,
+		Oracle:  drv.Oracle{World: true, Family: family, Filters: true, Lock: true, Stats: true},
+		Preludes: [][]model.Op{
+			{{K: model.OpNewPlain}},
+			{{K: model.OpNewPlain}, {K: model.OpNew, Path: model.PathMapN, Cs: ct.Of(ct.P)}, {K: model.OpNew, Path: model.PathMapN, Cs: ct.Of(ct.R1), T: rel(ct.R1, 0)},
+				{K: model.OpRegister, F: 0}, {K: model.OpRegister, F: 1}, {K: model.OpRegister, F: 4}},
+		},
 		Alphabet: alpha,
 		Depth:    depth,
 	}
@@ -283,8 +431,18 @@ func init() {
 			seen[k] = true
 			scs = append(scs, arityScenario(tp, d))
 		}
+		// the single-component mapper Map[T]: the same alphabet through its methods
+		for _, c := range []ct.Comp{ct.P, ct.R1, ct.S, ct.Z, ct.L} {
+			scs = append(scs, arityScenarioPath([]ct.Comp{c}, d, model.PathMap))
+		}
+		scs = append(scs, arity0Scenario(d+1))
+		for _, tp := range api.MapTuples {
+			if len(tp) >= 2 {
+				scs = append(scs, missingScenario(tp))
+			}
+		}
 		return &Check{ID: "C14", Scenarios: scs,
-			Rule: fmt.Sprintf("for each of %d ordered type tuples (every arity 1-12 of MapN with the relation component first, in the middle and last, arity>=7 with two relations; the same tuples for FilterN/QueryN 0-8, ExchangeN 1-8, ObserverN 1-4; 12 component types of distinct sizes and kinds) all histories up to the depth bound over that family's methods (NewEntity/NewEntityFn/nil, NewBatch/NewBatchFn, Add/AddFn/nil, Set, Get+write, Remove, GetRelation, SetRelations, AddBatch/AddBatchFn, RemoveBatch, SetRelationsBatch, ExchangeN Add/Exchange/Remove + batch forms, FilterN Register/Unregister/Query/Batch, typed and generic observers) are executed through the typed variant; after every history the world is observed through the ID-based API and compared with the model (= the ID-based semantics), MapN.Get/GetUnchecked pointers must be address-equal to Unsafe.Get in type-parameter order, typed queries yield the same multiset and pointers as UnsafeQuery, typed observers fire exactly when the generic observer with For(...) does and receive the right pointers, relation indices refer to parameter positions; non-trivial = >=1 alive entity", len(scs)),
+			Rule: fmt.Sprintf("for each of %d scenarios = ordered type tuples (every arity 1-12 of MapN with the relation component first, in the middle and last, arity>=7 with two relations, arities 4-10 also without relations; the same tuples for FilterN/QueryN 0-8, ExchangeN 1-8, ObserverN 1-4; Map[T] for 5 component kinds; Filter0/Query0; 12 component types of distinct sizes and kinds; wrappers constructed alternately by NewX/ObserveN and by the New method) all histories up to the depth bound over that family's methods (NewEntity/NewEntityFn/nil, NewBatch/NewBatchFn, Add/AddFn/nil by value and by callback, Set, Get+write, Remove, GetRelation(+Unchecked), SetRelations, AddBatch/AddBatchFn, RemoveBatch, SetRelationsBatch, ExchangeN Add/Exchange/Remove + batch forms by value and by callback with chained Removes, FilterN With/Without/Exclusive/Relations/Register/Unregister/Query/Batch, typed observers with For/With/Without/Exclusive and Unregister/Register, filtered relation observers, generic observers) are executed through the typed variant; after every history the world is observed through the ID-based API and compared with the model (= the ID-based semantics), MapN.Get/GetUnchecked pointers must be address-equal to Unsafe.Get in type-parameter order, typed queries yield the same multiset and pointers as UnsafeQuery, typed observers fire exactly when the generic observer with For(...) does and receive the right pointers, relation indices refer to parameter positions; non-trivial = >=1 alive entity", len(scs)),
 		}
 	}
 }
